@@ -3389,6 +3389,8 @@ impl Zeroconf {
                     out.add_question(q.entry_name(), q.entry_type());
                 }
                 out.clear_cache_flush_bits();
+                // The legacy querier matches the reply by the ID of its query.
+                out.set_multicast(false);
             }
 
             if let Err(InternalError::IntfAddrInvalid(intf_addr)) = send_dns_outgoing(
